@@ -295,3 +295,38 @@ func forwardsRead(f *ssa.Function, c *ssa.Call) bool {
 }
 
 var _ = token.ADD
+
+// rd1Scan applies rule RD1 (no bare Read on a reader that may return short
+// counts) to every function of meta/... under the given rule name; used by
+// C05/C06 for their "payload is read with a full-read primitive" clause.
+func rd1Scan(p *Program, r *Report, rule string) {
+	n, bad := 0, 0
+	for _, f := range p.SrcFuncs() {
+		if !inMeta(f) {
+			continue
+		}
+		site := 0
+		for _, b := range f.Blocks {
+			for _, in := range b.Instrs {
+				c, ok := in.(*ssa.Call)
+				if !ok {
+					continue
+				}
+				cls := readCallClass(c)
+				if cls == "" {
+					continue
+				}
+				n++
+				site++
+				if cls == "mem" || (f.Name() == "Read" && forwardsRead(f, c)) {
+					continue
+				}
+				bad++
+				r.Violate(rule, fmt.Sprintf("%s call#%d of Read", shortFn(f), site), p.InstrPos(c), fmt.Sprintf("bare Read on a %s receiver: a short read truncates the field/payload (full-read primitive required)", cls))
+			}
+		}
+	}
+	if bad == 0 {
+		r.Hold(rule, "no bare Read in meta/...", "-", fmt.Sprintf("%d Read call sites classified; all stream payloads are read with io.ReadFull / io.CopyN / ReadByte helpers", n))
+	}
+}
